@@ -192,5 +192,25 @@ func RemoveAll(repo repository.ClockedRepo) error {
 			return err
 		}
 	}
+
+	// Also remove the remote-tracking references of the identities that don't exist locally
+	// (fetched but never merged, or removed locally only).
+	remotes, err := repo.GetRemotes()
+	if err != nil {
+		return err
+	}
+	for remote := range remotes {
+		refs, err := repo.ListRefs(fmt.Sprintf(identityRemoteRefPattern, remote))
+		if err != nil {
+			return err
+		}
+		for _, ref := range refs {
+			err = repo.RemoveRef(ref)
+			if err != nil {
+				return err
+			}
+		}
+	}
+
 	return nil
 }
